@@ -331,6 +331,8 @@ def load_specs(reg, path):
 
 def load_enums(reg, src):
     """Enum members are read from the class statements of the source tree (never hard-coded)."""
+    for name, members in getattr(reg, 'enum_defs', {}).items():      # enumerations of external singleton classes
+        reg.enums[name] = TEnum(name, list(members))
     for name, (relpath, cname) in getattr(reg, 'enums_src', {}).items():
         m = src.modules.get(relpath)
         ci = m.classes.get(cname) if m else None
